@@ -695,6 +695,15 @@ impl TimeZone {
         self.repr.is_unknown()
     }
 
+    /// Instrumentation for an external verification harness (only with
+    /// `--cfg jiff_verif`): the representation tag of this time zone and,
+    /// for the reference counted representations, the current strong count.
+    #[cfg(all(jiff_verif, feature = "alloc"))]
+    #[doc(hidden)]
+    pub fn __verif_repr(&self) -> (usize, Option<usize>) {
+        (self.repr.tag(), self.repr.verif_strong_count())
+    }
+
     /// When this time zone is a POSIX time zone, return it.
     ///
     /// This doesn't attempt to convert other time zones that are representable
@@ -2218,6 +2227,29 @@ mod repr {
         /// Returns the tag on the representation's pointer.
         ///
         /// The value is guaranteed to be one of the constant tag values.
+        /// Returns the strong count of the `Arc` behind this representation.
+        #[cfg(all(jiff_verif, feature = "alloc"))]
+        pub(super) fn verif_strong_count(&self) -> Option<usize> {
+            let ptr = self.ptr.map_addr(|addr| addr & !Repr::BITS);
+            match self.tag() {
+                Repr::ARC_TZIF => {
+                    // SAFETY: Same as in `get_arc_tzif`.
+                    let arc = ManuallyDrop::new(unsafe {
+                        Arc::from_raw(ptr.cast::<TzifOwned>())
+                    });
+                    Some(Arc::strong_count(&arc))
+                }
+                Repr::ARC_POSIX => {
+                    // SAFETY: Same as in `get_arc_posix`.
+                    let arc = ManuallyDrop::new(unsafe {
+                        Arc::from_raw(ptr.cast::<PosixTimeZoneOwned>())
+                    });
+                    Some(Arc::strong_count(&arc))
+                }
+                _ => None,
+            }
+        }
+
         #[inline]
         pub(super) fn tag(&self) -> usize {
             #[allow(unstable_name_collisions)]
